@@ -4,6 +4,7 @@ package main
 
 import (
 	"fmt"
+	"os"
 	"sort"
 )
 
@@ -58,7 +59,13 @@ type Run struct {
 	pc      []*Term
 	pcSet   map[*Term]bool
 	model   *Model
-	modelOK bool
+	ufParent   map[int]int
+	groupConj  map[int][]*Term
+	groupVars  map[int][]int
+	groupValid map[int]bool
+	solverOpen bool
+	solverSynced int
+	impDone map[*Term]bool
 	inputs  []inputRec
 	nInstr  int64
 	nDecs   int
@@ -92,17 +99,90 @@ func (r *Run) unsupported(format string, a ...interface{}) {
 	panic(abortRun{"unsupported: " + fmt.Sprintf(format, a...)})
 }
 
+// ---- constraint independence: variables are grouped by the conjuncts that relate them ----
+
+func (r *Run) find(v int) int {
+	p, ok := r.ufParent[v]
+	if !ok {
+		r.ufParent[v] = v
+		r.groupValid[v] = true
+		return v
+	}
+	if p == v {
+		return v
+	}
+	root := r.find(p)
+	r.ufParent[v] = root
+	return root
+}
+
+func (r *Run) union(a, b int) int {
+	ra, rb := r.find(a), r.find(b)
+	if ra == rb {
+		return ra
+	}
+	if len(r.groupConj[ra]) < len(r.groupConj[rb]) {
+		ra, rb = rb, ra
+	}
+	r.ufParent[rb] = ra
+	r.groupConj[ra] = append(r.groupConj[ra], r.groupConj[rb]...)
+	r.groupVars[ra] = append(r.groupVars[ra], r.groupVars[rb]...)
+	r.groupValid[ra] = r.groupValid[ra] && r.groupValid[rb]
+	delete(r.groupConj, rb)
+	delete(r.groupVars, rb)
+	delete(r.groupValid, rb)
+	return ra
+}
+
+// rootsOf returns the distinct group roots of the variables of t (registering new variables).
+func (r *Run) rootsOf(t *Term) []int {
+	vs := r.ctx().VarsOf(t)
+	var roots []int
+	for _, v := range vs {
+		if _, ok := r.ufParent[v]; !ok {
+			r.ufParent[v] = v
+			r.groupValid[v] = true
+			r.groupVars[v] = []int{v}
+		}
+		root := r.find(v)
+		dup := false
+		for _, x := range roots {
+			if x == root {
+				dup = true
+				break
+			}
+		}
+		if !dup {
+			roots = append(roots, root)
+		}
+	}
+	return roots
+}
+
 func (r *Run) assertPC(t *Term) {
 	if t.IsTrue() {
 		return
 	}
 	r.pc = append(r.pc, t)
 	r.pcSet[t] = true
-	r.w.solver.Assert(t)
 	if t.op == OBAnd { // record conjuncts as known facts too
 		for _, a := range t.a {
 			r.pcSet[a] = true
 		}
+	}
+	roots := r.rootsOf(t)
+	if len(roots) == 0 {
+		return
+	}
+	root := roots[0]
+	for _, x := range roots[1:] {
+		root = r.union(root, x)
+	}
+	root = r.find(root)
+	r.groupConj[root] = append(r.groupConj[root], t)
+	if r.groupValid[root] {
+		v, ok := r.model.Eval(t)
+		r.groupValid[root] = ok && v != 0
 	}
 }
 
@@ -135,51 +215,236 @@ func (r *Run) inputTerms() []*Term {
 	return ts
 }
 
-// query decides PC ∧ extra.  On sat with wantModel, installs the model.
+type qkey struct{ a, b uint64 }
+
+type qres struct {
+	res  Res
+	vals []uint64 // model values, aligned with the sorted variable list of the slice
+}
+
+func mix(h, x uint64) uint64 {
+	h ^= x + 0x9e3779b97f4a7c15 + (h << 6) + (h >> 2)
+	h *= 0xff51afd7ed558ccd
+	h ^= h >> 33
+	return h
+}
+
+// slice collects the conjuncts and variables relevant to extra.
+func (r *Run) slice(extra *Term) (conj []*Term, vars []int) {
+	roots := r.rootsOf(extra)
+	for _, root := range roots {
+		conj = append(conj, r.groupConj[root]...)
+		vars = append(vars, r.groupVars[root]...)
+	}
+	return
+}
+
+// query decides PC ∧ extra using only the independent slice of PC that shares variables with extra.
+// With install, a sat answer updates the model on the slice's variables.
 func (r *Run) query(extra *Term, install bool) Res {
-	s := r.w.solver
-	var want []*Term
-	if install {
-		want = r.inputTerms()
-		for _, u := range r.ufApps {
-			want = append(want, u)
-			want = append(want, u.a...)
+	if extra.IsFalse() {
+		return Unsat
+	}
+	conj, vars := r.slice(extra)
+	w := r.w
+	// structural cache key: identical across workers (variable names are deterministic)
+	hs := make([][2]uint64, 0, len(conj))
+	for _, t := range conj {
+		hs = append(hs, [2]uint64{t.h1, t.h2})
+	}
+	sort.Slice(hs, func(i, j int) bool { return hs[i][0] < hs[j][0] || hs[i][0] == hs[j][0] && hs[i][1] < hs[j][1] })
+	k := qkey{extra.h1 + 1, extra.h2 ^ 0x1234567}
+	for _, h := range hs {
+		k.a = mix(k.a, h[0])
+		k.b = mix(k.b^0xabcdef, h[1])
+	}
+	// variables in a worker-independent order (by name hash)
+	sort.Slice(vars, func(i, j int) bool {
+		a, b := w.ctx.varByID[vars[i]], w.ctx.varByID[vars[j]]
+		if a == nil || b == nil {
+			return a != nil
+		}
+		return a.h1 < b.h1
+	})
+	if w.ex.cfg.MaxCache > 0 {
+		if c, ok := w.ex.cacheGet(k); ok && (c.res == Unsat || !install || c.vals != nil) {
+			w.cacheHits++
+			if c.res == Sat && install {
+				r.installVals(vars, c.vals, extra)
+			}
+			return c.res
 		}
 	}
-	res, vals := s.CheckWith(extra, want)
-	r.w.nQueries++
+	// (1) unsat cores recorded for this question: any core contained in the current slice decides it
+	var conjSet map[[2]uint64]bool
+	if w.ex.cfg.MaxCache > 0 {
+		if cores := w.ex.coresGet(qkey{extra.h1, extra.h2}); len(cores) > 0 {
+			conjSet = make(map[[2]uint64]bool, len(hs))
+			for _, h := range hs {
+				conjSet[h] = true
+			}
+		next:
+			for _, core := range cores {
+				for _, h := range core {
+					if !conjSet[h] {
+						continue next
+					}
+				}
+				w.coreHits++
+				return Unsat
+			}
+		}
+		// (2) a recent model of the same variable set that happens to satisfy slice ∧ extra
+		if !extra.hasUF {
+			if vals, ok := r.tryModelPool(conj, vars, extra); ok {
+				w.poolHits++
+				w.ex.cachePut(k, qres{res: Sat, vals: vals})
+				if install {
+					r.installVals(vars, vals, extra)
+				}
+				return Sat
+			}
+		}
+	}
+	w.missByRoots[len(r.rootsOf(extra))&63]++
+	if os.Getenv("GOSYM_MISS") != "" {
+		fmt.Fprintf(os.Stderr, "MISS nconj=%d key=%x extra=%s\n", len(conj), k.a, extra.Deep(4))
+	}
+	s := w.solver
+	var res Res
+	var core []*Term
+	if w.ex.cfg.SliceOnly {
+		s.Push()
+		for _, t := range conj {
+			s.Assert(t)
+		}
+		s.Assert(extra)
+		res = s.Check()
+	} else {
+		// every PC conjunct is asserted once per run as (=> p_i t_i); a query assumes the literals of the
+		// independent slice plus the one of extra: persistent internalisation, no push/pop, unsat cores
+		if !r.solverOpen {
+			s.Push()
+			r.solverOpen = true
+			r.impDone = map[*Term]bool{}
+		}
+		lits := make([]*Term, 0, len(conj)+1)
+		for _, t := range conj {
+			if !r.impDone[t] {
+				s.AssertImp(t)
+				r.impDone[t] = true
+			}
+			lits = append(lits, t)
+		}
+		if !r.impDone[extra] {
+			s.AssertImp(extra)
+			r.impDone[extra] = true
+		}
+		lits = append(lits, extra)
+		res, core = s.CheckAssuming(lits)
+	}
+	w.nQueries++
+	if res == Unsat && core != nil && w.ex.cfg.MaxCache > 0 {
+		var ch [][2]uint64
+		for _, t := range core {
+			if t != extra {
+				ch = append(ch, [2]uint64{t.h1, t.h2})
+			}
+		}
+		w.ex.coresPut(qkey{extra.h1, extra.h2}, ch)
+	}
+	var vals []uint64
+	if res == Sat {
+		// always fetch the slice model: it makes the cache entry reusable for install requests
+		vts := make([]*Term, len(vars))
+		for i, v := range vars {
+			vts[i] = w.ctx.varByID[v]
+		}
+		var ufTerms []*Term
+		if install && len(r.ufApps) > 0 {
+			for _, u := range r.ufApps {
+				ufTerms = append(ufTerms, u)
+				ufTerms = append(ufTerms, u.a...)
+			}
+			for _, t := range ufTerms {
+				s.define(t)
+			}
+		}
+		m := s.Values(append(vts, ufTerms...))
+		vals = make([]uint64, len(vars))
+		for i, t := range vts {
+			if t != nil {
+				vals[i] = m[t]
+			}
+		}
+		if ufTerms != nil {
+			r.pendingUF = nil
+			for _, u := range r.ufApps {
+				e := UFEntry{Name: u.name, V: m[u]}
+				for _, a := range u.a {
+					e.Args = append(e.Args, m[a])
+				}
+				r.pendingUF = append(r.pendingUF, e)
+			}
+		}
+	}
+	if w.ex.cfg.SliceOnly {
+		s.Pop()
+	}
+	if res == Sat && vals != nil {
+		w.ex.poolPut(vars, w.ctx, vals)
+	}
 	if res == Unknown {
-		res = r.w.fallbackQuery(r, extra)
+		res = w.fallbackQuery(r, conj, extra)
 		if res == Unknown {
 			panic(abortRun{"solver returned unknown"})
 		}
-		if res == Sat && install {
-			install = false // no model from the fallback
+		if res == Sat {
+			// no model from the fallback
+			w.ex.cachePut(k, qres{res: Sat})
+			if install {
+				r.invalidate(extra)
+			}
+			return Sat
 		}
 	}
+	w.ex.cachePut(k, qres{res: res, vals: vals})
 	if res == Sat && install {
-		m := NewModel()
-		for t, v := range vals {
-			m.vals[t] = v
-		}
-		r.model = m
-		r.modelOK = true
-		r.pendingUF = nil
-		for _, u := range r.ufApps {
-			e := UFEntry{Name: u.name, V: vals[u]}
-			for _, a := range u.a {
-				e.Args = append(e.Args, vals[a])
-			}
-			r.pendingUF = append(r.pendingUF, e)
-		}
+		r.installVals(vars, vals, extra)
 	}
 	return res
 }
 
-// modelEval evaluates t under the current model if the model is valid for the PC.
+func (r *Run) invalidate(extra *Term) {
+	for _, root := range r.rootsOf(extra) {
+		r.groupValid[root] = false
+	}
+}
+
+// installVals writes slice model values into the model; the groups of the slice become valid
+// (they satisfy their conjuncts and extra).
+func (r *Run) installVals(vars []int, vals []uint64, extra *Term) {
+	c := r.ctx()
+	for i, v := range vars {
+		if t := c.varByID[v]; t != nil {
+			r.model.vals[t] = vals[i]
+		}
+	}
+	r.model.memo = map[*Term]uint64{}
+	for _, root := range r.rootsOf(extra) {
+		r.groupValid[root] = true
+	}
+}
+
+// modelEval evaluates t under the current model if the model is valid for every group t depends on.
 func (r *Run) modelEval(t *Term) (uint64, bool) {
-	if !r.modelOK {
+	if t.hasUF {
 		return 0, false
+	}
+	for _, root := range r.rootsOf(t) {
+		if !r.groupValid[root] {
+			return 0, false
+		}
 	}
 	return r.model.Eval(t)
 }
@@ -206,140 +471,11 @@ func (r *Run) queueAlt(d Dec) {
 	r.w.ex.push(alt)
 }
 
-// Branch decides a boolean condition, forking if both sides are feasible.
-func (r *Run) Branch(c *Term) bool {
-	if v, ok := r.known(c); ok {
-		return v
-	}
-	nc := r.ctx().Not(c)
-	if d, ok := r.forced(); ok {
-		if d.K != 'b' {
-			panic(engineErr{fmt.Sprintf("determinism: forced %v at a branch (pos %d)", d, len(r.trace))})
-		}
-		side := d.V != 0
-		if v, ok := r.modelEval(c); !ok || (v != 0) != side {
-			r.modelOK = false
-		}
-		r.record(d)
-		if side {
-			r.assertPC(c)
-		} else {
-			r.assertPC(nc)
-		}
-		return side
-	}
-	var side bool
-	if v, ok := r.modelEval(c); ok {
-		side = v != 0
-		other := nc
-		if !side {
-			other = c
-		}
-		if r.query(other, false) == Sat {
-			r.queueAlt(Dec{'b', b2i(!side)})
-		}
-	} else {
-		rt := r.query(c, true)
-		if rt == Sat {
-			side = true
-			if r.query(nc, false) == Sat {
-				r.queueAlt(Dec{'b', 0})
-			}
-		} else {
-			// PC is satisfiable by construction, so ¬c must be feasible; the model (if any) stays as it was
-			side = false
-			if r.modelOK {
-				// the old model satisfies PC, and PC ∧ c is unsat, hence it satisfies ¬c
-			}
-		}
-	}
-	r.record(Dec{'b', b2i(side)})
-	if side {
-		r.assertPC(c)
-	} else {
-		r.assertPC(nc)
-	}
-	return side
-}
-
 func b2i(b bool) int64 {
 	if b {
 		return 1
 	}
 	return 0
-}
-
-// Concretize forks on the feasible values of t (at most max of them) and returns the chosen one.
-func (r *Run) Concretize(t *Term, max int, what string) uint64 {
-	if t.op == OConst {
-		return t.c
-	}
-	c := r.ctx()
-	if d, ok := r.forced(); ok {
-		if d.K != 'c' {
-			panic(engineErr{fmt.Sprintf("determinism: forced %v at a concretisation (pos %d, %s)", d, len(r.trace), what)})
-		}
-		v := uint64(d.V)
-		if mv, ok := r.modelEval(t); !ok || mv != v {
-			r.modelOK = false
-		}
-		r.record(d)
-		r.assertPC(c.Eq(t, c.Const(t.w, v)))
-		return v
-	}
-	var vals []uint64
-	s := r.w.solver
-	first, haveFirst := r.modelEval(t)
-	s.Push()
-	if haveFirst {
-		vals = append(vals, first)
-		s.Assert(c.Not(c.Eq(t, c.Const(t.w, first))))
-	}
-	for {
-		res := s.Check()
-		r.w.nQueries++
-		if res == Unknown {
-			s.Pop()
-			panic(abortRun{"solver returned unknown (concretise " + what + ")"})
-		}
-		if res == Unsat {
-			break
-		}
-		m := s.Values([]*Term{t})
-		v, ok := m[t]
-		if !ok {
-			s.Pop()
-			panic(engineErr{"concretise: no model value"})
-		}
-		vals = append(vals, v)
-		if len(vals) > max {
-			s.Pop()
-			panic(abortRun{fmt.Sprintf("bound exceeded: more than %d feasible values for %s", max, what)})
-		}
-		s.Assert(c.Not(c.Eq(t, c.Const(t.w, v))))
-	}
-	s.Pop()
-	if len(vals) == 0 {
-		panic(engineErr{"concretise: PC infeasible"})
-	}
-	rest := append([]uint64(nil), vals[1:]...)
-	sort.Slice(rest, func(i, j int) bool { return rest[i] < rest[j] })
-	// queue in reverse so that the smallest is explored next (LIFO stack)
-	for i := len(rest) - 1; i >= 0; i-- {
-		r.queueAlt(Dec{'c', int64(rest[i])})
-	}
-	v := vals[0]
-	r.record(Dec{'c', int64(v)})
-	if len(vals) > 1 {
-		if !haveFirst {
-			r.modelOK = false
-		}
-		r.assertPC(c.Eq(t, c.Const(t.w, v)))
-	} else {
-		// single feasible value: t == v is implied; record as known fact without a solver assert
-		r.pcSet[c.Eq(t, c.Const(t.w, v))] = true
-	}
-	return v
 }
 
 // Choose is an enumerated n-way choice (no solver involved).
@@ -401,131 +537,31 @@ func sanitize(s string) string {
 	return string(b)
 }
 
-// Assume constrains the path; an infeasible assumption ends the path silently.
-func (r *Run) Assume(c *Term) {
-	if v, ok := r.known(c); ok {
-		if !v {
-			panic(pathEnd{"assume false"})
-		}
-		return
-	}
-	if v, ok := r.modelEval(c); ok && v != 0 {
-		r.assertPC(c)
-		return
-	}
-	if r.query(c, true) != Sat {
-		panic(pathEnd{"assume infeasible"})
-	}
-	r.assertPC(c)
-}
 
-// Assert checks the property on this path.
-func (r *Run) Assert(c *Term, msg, sig string) {
-	r.assertsTotal++
-	if v, ok := r.known(c); ok {
-		if !v {
-			r.violation("assert", msg, sig)
-			panic(pathEnd{"assert failed (constant)"})
+// tryModelPool looks for a recently found model over exactly this variable set that satisfies slice ∧ extra.
+func (r *Run) tryModelPool(conj []*Term, vars []int, extra *Term) ([]uint64, bool) {
+	w := r.w
+	cands := w.ex.poolGet(vars, w.ctx)
+	for _, vals := range cands {
+		m := NewModel()
+		for i, v := range vars {
+			if t := w.ctx.varByID[v]; t != nil {
+				m.vals[t] = vals[i]
+			}
 		}
-		return
-	}
-	r.asserts++
-	nc := r.ctx().Not(c)
-	if v, ok := r.modelEval(c); ok && v == 0 {
-		// current model already violates
-		r.violationModel("assert", msg, sig, r.model)
-	} else {
-		if r.query(nc, true) == Sat {
-			r.violationModel("assert", msg, sig, r.model)
-			r.modelOK = false // the model satisfies ¬c, not the continuing path
-		} else {
-			r.pcSet[c] = true
-			return
+		if v, ok := m.Eval(extra); !ok || v == 0 {
+			continue
 		}
-	}
-	// continue under c if possible so that later assertions on this path are still examined
-	r.modelOK = false
-	if r.query(c, true) != Sat {
-		panic(pathEnd{"assert failed on every input of the path"})
-	}
-	r.assertPC(c)
-}
-
-func (r *Run) violation(kind, msg, sig string) {
-	// need some model of the PC
-	if !r.modelOK {
-		if r.query(r.ctx().True, true) != Sat {
-			panic(engineErr{"violation on an infeasible path"})
+		good := true
+		for _, t := range conj {
+			if v, ok := m.Eval(t); !ok || v == 0 {
+				good = false
+				break
+			}
+		}
+		if good {
+			return vals, true
 		}
 	}
-	r.violationModel(kind, msg, sig, r.model)
-}
-
-func (r *Run) violationModel(kind, msg, sig string, m *Model) {
-	v := &Violation{Harness: r.w.ex.harnessName, Msg: msg, Sig: sig, Kind: kind}
-	if m != nil {
-		for _, in := range r.inputs {
-			val, _ := m.Eval(in.T)
-			v.Inputs = append(v.Inputs, ReplayInput{in.Name, in.T.w, val})
-		}
-	}
-	for _, d := range r.trace {
-		v.Decs += d.String() + " "
-	}
-	v.Chooses = append([]int64(nil), r.chooses...)
-	v.Params = r.w.ex.cfg.Params
-	v.UF = r.pendingUF
-	r.pendingUF = nil
-	if r.sched != nil {
-		v.Sched = append([]int(nil), r.sched.history...)
-	}
-	r.viols = append(r.viols, v)
-}
-
-// fallbackQuery re-decides PC ∧ extra with one-shot solver processes when the incremental session said unknown.
-func (w *Worker) fallbackQuery(r *Run, extra *Term) Res {
-	return Unknown
-}
-
-// makeWitness records, for a completed path, concrete inputs (a model of the path condition) and the
-// observable log evaluated under that model, for native cross-validation of the translator.
-func (r *Run) makeWitness() {
-	s := r.w.solver
-	want := r.inputTerms()
-	for _, o := range r.obs {
-		want = append(want, o.t)
-	}
-	for _, u := range r.ufApps {
-		want = append(want, u)
-		want = append(want, u.a...)
-	}
-	for _, t := range want {
-		s.define(t)
-	}
-	res, vals := s.CheckWith(r.ctx().True, want)
-	r.w.nQueries++
-	if res != Sat {
-		return
-	}
-	w := &Witness{Chooses: append([]int64(nil), r.chooses...)}
-	for _, in := range r.inputs {
-		w.Inputs = append(w.Inputs, ReplayInput{in.Name, in.T.w, vals[in.T]})
-	}
-	for _, o := range r.obs {
-		v, ok := vals[o.t]
-		if !ok {
-			return
-		}
-		w.Obs = append(w.Obs, fmt.Sprintf("%s=%d", o.label, v))
-	}
-	for _, u := range r.ufApps {
-		e := UFEntry{Name: u.name, V: vals[u]}
-		for _, a := range u.a {
-			e.Args = append(e.Args, vals[a])
-		}
-		w.UF = append(w.UF, e)
-	}
-	w.Decs = decsString(r.trace, 200)
-	w.Params = r.w.ex.cfg.Params
-	r.witness = w
+	return nil, false
 }
